@@ -34,7 +34,8 @@ IDENT = re.compile(r"^[A-Za-z_][A-Za-z0-9_]*(\.[A-Za-z_][A-Za-z0-9_]*)*$")
 # how the pinned caller reaches the callee: by name; as a function-valued argument of another pinned function
 # (bare, or nested in a list / dictionary argument); through a partial application; through a batch
 SHAPES = ["direct", "fnarg", "fnarg_nested", "partial", "batch"]
-EVOLUTIONS = ["unchanged", "edited", "removed", "renamed", "plain", "reclustered", "bumped", "edited_twice"]
+EVOLUTIONS = ["unchanged", "edited", "removed", "renamed", "plain", "reclustered", "bumped", "edited_twice", "bumped_odd"]
+ODD_VERSIONS = ["a::b", "1:2#3", "1.link", "x#y", "v=1+2", "@", ":", "1.0-rc.1"]
 
 
 def cases(tier, seed):
@@ -54,11 +55,18 @@ def cases(tier, seed):
                     k += 1
         for shape in SHAPES:
             for evo in EVOLUTIONS:
+                if evo == "bumped_odd":
+                    continue
                 for cluster in (None, "named.cl-1"):
                     for cache in (False, True):
                         yield {"kind": "evolve", "seed": seed, "idx": k, "evolution": evo, "cluster": cluster, "cache": cache,
                                "shape": shape}
                         k += 1
+        for j in range(len(ODD_VERSIONS)):  # every odd explicit version, bumped, in both clusters
+            for cluster in (None, "named.cl-1"):
+                yield {"kind": "evolve", "seed": seed, "idx": k, "evolution": "bumped_odd", "cluster": cluster, "cache": bool(j % 2),
+                       "shape": SHAPES[j % len(SHAPES)], "odd": j}
+                k += 1
 
 
 INPROC = ["control", "removed", "variable_rebound", "helper_redefined", "replaced_by_plain"]
@@ -262,9 +270,12 @@ def run_store(case, out, fail):
 
 
 # ---------------------------------------------------------------- evolutions
-def evo_module(cluster, stage, evolution, shape="direct"):
+def evo_module(cluster, stage, evolution, shape="direct", oddi=0):
     callee_v1 = '@m.memento_function(cluster=CL%s)\ndef callee(x):\n    REC.hit("callee", x)\n    return x + 1\n'
     ver1 = ', version="1"' if evolution == "bumped" else ""
+    if evolution == "bumped_odd":  # an explicit version with characters that mean something in qualified names / file names
+        odd = ODD_VERSIONS[oddi % len(ODD_VERSIONS)]
+        ver1 = ', version=%r' % odd
     if stage == 0 or evolution == "unchanged":
         callee = callee_v1 % ver1
     elif evolution == "edited":
@@ -281,6 +292,8 @@ def evo_module(cluster, stage, evolution, shape="direct"):
         callee = callee_v1.replace("cluster=CL%s", 'cluster="elsewhere"%s') % ""
     elif evolution == "bumped":
         callee = callee_v1 % ', version="2"'
+    elif evolution == "bumped_odd":
+        callee = callee_v1 % (', version=%r' % (ODD_VERSIONS[oddi % len(ODD_VERSIONS)] + "2"))
     cname = "callee_v2" if (evolution == "renamed" and stage > 0) else "callee"
     use = {"direct": "%s(x)", "fnarg": "apply(%s, x)", "fnarg_nested": "apply({\"fns\": [%s], \"n\": 1}, x)",
            "partial": "%s.partial(x)()", "batch": "%s.call_batch([{\"x\": x}])[0]"}[shape] % cname
@@ -366,8 +379,9 @@ def evo_child(arg):
 
 def run_evolve(case, out, fail):
     evolution, cluster = case["evolution"], case["cluster"]
-    label = "evolution %s, callee reached %s, %s cluster, cache=%s" % (
-        evolution, case.get("shape", "direct"), "default" if cluster is None else "named", case["cache"])
+    label = "evolution %s%s, callee reached %s, %s cluster, cache=%s" % (
+        evolution, " (version %r)" % ODD_VERSIONS[case["odd"]] if "odd" in case else "", case.get("shape", "direct"),
+        "default" if cluster is None else "named", case["cache"])
     with env.Scratch() as sc:
         modname = "vpevo_%d_%d" % (case["seed"], case["idx"])
         stages = 3 if evolution == "edited_twice" else 2
@@ -376,7 +390,7 @@ def run_evolve(case, out, fail):
             src = sc.path("src%d" % stage)
             os.makedirs(src)
             with open(os.path.join(src, modname + ".py"), "w") as f:
-                f.write(evo_module(cluster, stage, evolution, case.get("shape", "direct")))
+                f.write(evo_module(cluster, stage, evolution, case.get("shape", "direct"), case.get("odd", 0)))
             try:
                 order = ["call", "memento", "list_mementos", "list_functions"]
                 if stage > 0:
@@ -407,6 +421,12 @@ def run_evolve(case, out, fail):
                     fail("an entry whose own version is current is not found by memento()", "%s stage %d" % (label, stage))
                 else:
                     gone = evolution != "unchanged"
+                    first_mem = first.get("memento", [None, None, None])[2] or {}
+                    was = sorted(q for q, _ in (first_mem.get("invocations", []) + first_mem.get("dependencies", [])) if "callee" in q)
+                    now = sorted(q for q, _ in (mm["invocations"] + mm["dependencies"]) if "callee" in q)
+                    if was and now != was:
+                        fail("a reference inside stored metadata names another function after the code base evolved",
+                             "%s stage %d: references %s, the entry was recorded with %s" % (label, stage, now, was))
                     for qn, external in mm["invocations"] + mm["dependencies"]:
                         if "callee" in qn:
                             out["obs"]["references_to_old_versions_checked"] += 1
